@@ -18,6 +18,7 @@ CONSTANTS
   MaxEntries,
   BodyOf1,      \* [id -> body lines]
   LiveSets,     \* set of sets of ids considered registered (prefix-closed per test by construction)
+  ExcludeKnown, \* TRUE: the clauses are conditioned on the K6 signature
   EmitCases
 
 VARIABLES case, emitted
@@ -47,7 +48,7 @@ P1       == Parse(R.file)
 HdrsOf(p) == {p.entries[i].h : i \in DOMAIN p.entries}
 Bracket(id) == "[" \o id \o "]"
 ArrIds   == {case.arr[i] : i \in DOMAIN case.arr}
-Known6   == \E id \in ArrIds : ~IsCleanHeader(Bracket(id))   \* K6 signature
+Known6   == ExcludeKnown /\ \E id \in ArrIds : ~IsCleanHeader(Bracket(id))   \* K6 signature
 
 \* C07: live entries survive with their value and are not reported
 P_C07 == ~Known6 =>
